@@ -532,13 +532,13 @@ func PrintResult(w *os.File, hr *HarnessResult) {
 		hr.Solver.Queries, hr.Solver.SatN, hr.Solver.UnsatN, hr.Solver.UnknownN, hr.Solver.Errors, hr.Solver.Time.Round(time.Millisecond))
 	fmt.Fprintf(w, "  covers: %v\n", hr.Covers)
 	for _, v := range hr.Violations {
-		fmt.Fprintf(w, "  VIOLATION %s: %s\n    model=%v\n    trace=%v\n", v.Status, v.Label, v.Model, v.Trace)
+		fmt.Fprintf(w, "  VIOLATION %s: %s\n    model=%v\n    trace=%v\n", v.Status, v.Label, v.Model, shortTrace(v.Trace))
 		if v.Stack != "" {
 			fmt.Fprintf(w, "%s\n", v.Stack)
 		}
 	}
 	for _, v := range hr.Inconclusive {
-		fmt.Fprintf(w, "  INCONCLUSIVE %s: %s trace=%v\n", v.Status, v.Label, v.Trace)
+		fmt.Fprintf(w, "  INCONCLUSIVE %s: %s trace=%v\n", v.Status, v.Label, shortTrace(v.Trace))
 		if v.Stack != "" {
 			fmt.Fprintf(w, "%s\n", v.Stack)
 		}
@@ -630,4 +630,11 @@ func (e *Engine) funcInfoOf(fn *ssa.Function) *funcInfo {
 	}
 	v, _ := e.finfo.LoadOrStore(fn, fi)
 	return v.(*funcInfo)
+}
+
+func shortTrace(t []int32) []int32 {
+	if len(t) > 40 {
+		return t[:40]
+	}
+	return t
 }
